@@ -34,7 +34,6 @@ h_ptrheap_increase(void)
 
 	ptrheap_increase(H, rc);
 
-	__CPROVER_assert(HP_ISMIN(H->elems, H->nelems, HP_E(H->elems, 0)), "the root is a least element");
 	VCOVER(use_rc && rc == 0 && n == HP_MAXN && H_l_buf[HP_MAXN - 1] == e);
 	VCOVER(!use_rc && rc == 1 && H_l_buf[1] != e);
 	VCOVER(use_rc && rc == 2 && H_l_buf[2] == e && n == HP_MAXN);
